@@ -33,7 +33,7 @@ bool nondet_bool(void);
 #define C05_PEEK2(r) ((r)->offset < (r)->length && (r)->offset + 1 < (r)->length ? (int)(r)->data[(r)->offset + 1] : -1)
 
 /* ---------------------------------------------------------------------------------------------------------- ghosts */
-#define C05_GHOSTS_NUM int nq, nc, nc2; uint64_t nacc; bool novf, nneg, nalpha, nhex; size_t nstart;
+#define C05_GHOSTS_NUM int nq, nc, nc2; uint64_t nacc; bool novf, nneg, nalpha, nhex; size_t nstart; uint64_t nexp; bool neovf, nexp_ok;
 #define C05_GHOSTS_STR int sq, sc, sout; unsigned su; bool shas, sobs; uint8_t sbyte; size_t sn, sstart;
 extern size_t g_len, g_off, g_mk;                 /* reader-contract ghosts (contracts/RW_types.h, stubs/libc.h) */
 extern size_t g_wk;                               /* ghost index into the bytes consumed by skip_whitespace_and_comments (input ghost) */
@@ -259,7 +259,7 @@ enum { NQ_START = 0, NQ_MINUS = 1, NQ_ZERO = 2, NQ_INT = 3, NQ_DOT = 4, NQ_FRAC 
 /* acc * 10 + d exceeds the int64 range of its sign: magnitude > INT64_MAX for a positive numeral, > 2^63 for a negative one */
 #define C05_DEC_OVF(acc, d, neg) ((acc) > 922337203685477580ull || ((acc) == 922337203685477580ull && (d) > ((neg) ? 8u : 7u)))
 #define C05_INT_LIMIT(neg) (0x7FFFFFFFFFFFFFFFull + ((neg) ? 1u : 0u))
-#define C05_NUM_ENTRY g_j.nq = NQ_START; g_j.nacc = 0; g_j.novf = 0; g_j.nneg = 0; g_j.nalpha = 1; g_j.nhex = 0; g_j.nstart = r->offset; g_j.nc = 0; g_j.nc2 = 0
+#define C05_NUM_ENTRY g_j.nexp = 0; g_j.neovf = 0; g_j.nexp_ok = 1; g_j.nq = NQ_START; g_j.nacc = 0; g_j.novf = 0; g_j.nneg = 0; g_j.nalpha = 1; g_j.nhex = 0; g_j.nstart = r->offset; g_j.nc = 0; g_j.nc2 = 0
 /* before every get_s8() that consumes a byte: one transition; Horner fold of the integer digits (decimal: base 10, hex: base 16) */
 #define C05_NUM_STEP (g_j.nc = C05_PEEK(r), \
   g_j.nalpha = g_j.nalpha && C05_NUMCHAR(g_j.nc), \
@@ -268,7 +268,15 @@ enum { NQ_START = 0, NQ_MINUS = 1, NQ_ZERO = 2, NQ_INT = 3, NQ_DOT = 4, NQ_FRAC 
                           ((g_j.nq == NQ_HEXP || g_j.nq == NQ_HEX) && C05_ISHEX(g_j.nc)) ? (g_j.nacc >> 59) != 0 : 0), \
   g_j.nacc = ((g_j.nq == NQ_START || g_j.nq == NQ_MINUS || g_j.nq == NQ_INT) && C05_ISDIGIT(g_j.nc)) ? g_j.nacc * 10 + (unsigned)(g_j.nc - '0') : \
              ((g_j.nq == NQ_HEXP || g_j.nq == NQ_HEX) && C05_ISHEX(g_j.nc)) ? ((g_j.nacc << 4) | (unsigned)C05_HEXVAL(g_j.nc)) : g_j.nacc, \
+  g_j.neovf = g_j.neovf || (C05_NUM_IN_EXP(g_j.nq) && C05_ISDIGIT(g_j.nc) && g_j.nexp > 9999999ull), \
+  g_j.nexp = (C05_NUM_IN_EXP(g_j.nq) && C05_ISDIGIT(g_j.nc)) ? g_j.nexp * 10 + (unsigned)(g_j.nc - '0') : g_j.nexp, \
   g_j.nq = C05_NUM_NEXT(g_j.nq, g_j.nc))
+/* the decimal exponent: nexp = value of the exponent digits consumed so far (neovf: nine or more digits, not tracked).  The code's exponent
+ * counter must carry every exponent up to 400 exactly -- that covers every finite double, denormals included, for any mantissa of up to ~75
+ * digits -- and may saturate above that, but not below it (a clamp at the largest NORMAL exponent loses 1e-308 .. 1e-323) */
+#define C05_NUM_IN_EXP(q) ((q) == NQ_E || (q) == NQ_ESIGN || (q) == NQ_EXP)
+#define C05_EXP_CARRIED(e, E) ((E) <= 400 ? (uint64_t)(e) == (E) : ((e) > 400 && (uint64_t)(e) <= (E)))
+#define C05_NUM_EXP_DONE g_j.nexp_ok = (g_j.neovf || C05_EXP_CARRIED(e, g_j.nexp))
 /* before go(where + 2): the two bytes `0x` are consumed at once */
 #define C05_NUM_GO_STEP (g_j.nhex = 1, g_j.nc = C05_PEEK(r), g_j.nc2 = C05_PEEK2(r), \
   g_j.nalpha = g_j.nalpha && C05_NUMCHAR(g_j.nc) && C05_NUMCHAR(g_j.nc2), \
@@ -313,6 +321,8 @@ EFULL((verif_exc == 0 && g_j.nq != NQ_DEAD) ==> !C05_NUM_HAS_NEXT(g_j.nq, g_j.nc
 EFULL((verif_exc == 0 && C05_NUM_ACCEPTING(g_j.nq)) ==> ((ret->kind == JV_INT) == (C05_NUM_INTEGRAL(g_j.nq) && !(g_j.novf && !g_j.nhex))))
 /* integer value = Horner fold of the digits, for every numeral inside the int64 range (INT64_MIN included) */
 EFULL((verif_exc == 0 && C05_NUM_INTEGRAL(g_j.nq) && !g_j.novf) ==> (ret->kind == JV_INT && (uint64_t)ret->i == (g_j.nneg ? 0 - g_j.nacc : g_j.nacc)))
+/* exponent-form numbers: the exponent the scaling is done with is the value of the exponent digits (see C05_EXP_CARRIED) */
+EFULL((verif_exc == 0 && g_j.nq == NQ_EXP) ==> g_j.nexp_ok)
 /* hexadecimal notation only when extensions are enabled */
 EFULL(g_j.nhex ==> !disable_extensions)
 C05_ASSIGNS(r);
